@@ -9,6 +9,7 @@ import (
 	"net/http/httptest"
 	"net/url"
 	"strings"
+	"time"
 
 	"verifharness/drv"
 	"verifharness/emit"
@@ -27,6 +28,7 @@ func digest(parts ...string) string {
 
 // artefacts of a real flow on one router
 type live struct {
+	opts                   flowOpts
 	reqID, code, verifier  string
 	at, atJWT, rt, idToken string
 	device, userCode       string
@@ -34,47 +36,139 @@ type live struct {
 
 const verifier = "verifier-verifier-verifier-verifier-verifier-123"
 
-func authQuery(client string) url.Values {
-	redirect := map[string]string{"web": "https://web.example.com/cb", "web2": "https://web2.example.com/cb"}[client]
-	return url.Values{"client_id": {client}, "redirect_uri": {redirect}, "response_type": {"code"},
-		"scope": {"openid profile email offline_access"}, "state": {"s+t a"}, "nonce": {"n1"},
-		"code_challenge": {opfix.S256(verifier)}, "code_challenge_method": {"S256"}}
+// options of one code flow: which optional parts of the stored auth request are present
+type flowOpts struct {
+	client       string // web (Basic), web2 (post), spa / native (public)
+	challenge    string // "" (no code_challenge stored), "S256", "plain"
+	noNonce      bool
+	noState      bool
+	scopes       string
+	maxAge       bool
+	zeroAuthTime bool // the login UI did not record an auth time
+	emptyAMR     bool
+	emptyAud     bool
+	notLoggedIn  bool
+}
+
+var flowClients = map[string]struct{ secret, redirect string }{
+	"web":    {"web-secret", "https://web.example.com/cb"},
+	"web2":   {"web2-secret", "https://web2.example.com/cb"},
+	"spa":    {"", "https://spa.example.com/cb"},
+	"native": {"", "http://127.0.0.1/cb"},
+}
+
+func (g *gen) flowOpts(client string) flowOpts {
+	r := g.r
+	if client == "" {
+		client = drv.Pick(r, []string{"web", "web", "web2", "spa", "native"})
+	}
+	return flowOpts{client: client, challenge: drv.Pick(r, []string{"", "S256", "S256", "plain"}), noNonce: r.Chance(1, 3), noState: r.Chance(1, 3),
+		scopes: drv.Pick(r, []string{"openid profile email offline_access", "openid", "openid offline_access", "profile", "openid custom"}),
+		maxAge: r.Chance(1, 4), zeroAuthTime: r.Chance(1, 5), emptyAMR: r.Chance(1, 5), emptyAud: r.Chance(1, 6)}
+}
+
+func (o flowOpts) query() url.Values {
+	q := url.Values{"client_id": {o.client}, "redirect_uri": {flowClients[o.client].redirect}, "response_type": {"code"}, "scope": {o.scopes}}
+	if !o.noState {
+		q.Set("state", "s+t a")
+	}
+	if !o.noNonce {
+		q.Set("nonce", "n1")
+	}
+	switch o.challenge {
+	case "S256":
+		q.Set("code_challenge", opfix.S256(verifier))
+		q.Set("code_challenge_method", "S256")
+	case "plain":
+		q.Set("code_challenge", verifier)
+		if o.noNonce { // method omitted = plain
+			q.Set("code_challenge_method", "plain")
+		}
+	}
+	if o.maxAge {
+		q.Set("max_age", "3600")
+	}
+	return q
+}
+
+// token request that redeems the code of a flow; sendVerifier: "" none, else the value sent
+func (o flowOpts) redeemForm(code, sendVerifier string) (form []pair, basic []string) {
+	form = []pair{{k: "grant_type", v: gtCode}, {k: "code", v: code}, {k: "redirect_uri", v: flowClients[o.client].redirect}}
+	if sendVerifier != "" {
+		form = append(form, pair{k: "code_verifier", v: sendVerifier})
+	}
+	switch o.client {
+	case "web":
+		basic = []string{"web", "web-secret"}
+	case "web2":
+		form = append(form, pair{k: "client_id", v: "web2"}, pair{k: "client_secret", v: "web2-secret"})
+	default:
+		form = append(form, pair{k: "client_id", v: o.client})
+	}
+	return form, basic
 }
 
 // code flow up to (and optionally including) the token request
-func flow(f *opfix.Fixture, st *refstore.Store, rt opfix.Router, client, secret string, redeem bool) (l live) {
-	_, id := f.Authorize(rt, authQuery(client))
+func flow(f *opfix.Fixture, st *refstore.Store, rt opfix.Router, o flowOpts, redeem bool) (l live) {
+	_, id := f.Authorize(rt, o.query())
 	l.reqID = id
-	st.Login(id, "alice")
+	l.opts = o
+	if !o.notLoggedIn {
+		st.Login(id, "alice")
+		if ar := st.AuthReqs[id]; ar != nil { // optional parts of the stored state
+			if o.zeroAuthTime {
+				ar.AuthTime = time.Time{}
+			}
+			if o.emptyAMR {
+				ar.AMR = []string{}
+			}
+			if o.emptyAud {
+				ar.Audience = []string{}
+			}
+		}
+	}
 	cb := f.Callback(rt, id)
 	if p := cb.ResponseParams(); p != nil {
 		l.code = p.Get("code")
 	}
 	l.verifier = verifier
 	if redeem {
-		form := url.Values{"grant_type": {gtCode}, "code": {l.code}, "redirect_uri": {authQuery(client).Get("redirect_uri")}, "code_verifier": {verifier}}
-		var tok *opfix.Resp
-		if client == "web" {
-			tok = f.Post(rt, "/oauth/token", form, []string{client, secret}, "")
-		} else {
-			form.Set("client_id", client)
-			form.Set("client_secret", secret)
-			tok = f.Post(rt, "/oauth/token", form, nil, "")
+		v := ""
+		if o.challenge != "" {
+			v = verifier
 		}
+		ps, basic := o.redeemForm(l.code, v)
+		form := url.Values{}
+		for _, p := range ps {
+			form.Set(p.k, p.v)
+		}
+		tok := f.Post(rt, "/oauth/token", form, basic, "")
 		l.at, l.rt, l.idToken = tok.Str("access_token"), tok.Str("refresh_token"), tok.Str("id_token")
 	}
 	return l
 }
 
-func newLive(f *opfix.Fixture, st *refstore.Store, rt opfix.Router) live {
-	l := flow(f, st, rt, "web", "web-secret", true)
-	j := flow(f, st, rt, "web2", "web2-secret", true)
+func (g *gen) newLive(f *opfix.Fixture, st *refstore.Store, rt opfix.Router) live {
+	r := g.r
+	ow := g.flowOpts("web")
+	ow.scopes = "openid profile email offline_access"
+	l := flow(f, st, rt, ow, true)
+	oj := g.flowOpts("web2")
+	j := flow(f, st, rt, oj, true)
 	l.atJWT = j.at
-	fresh := flow(f, st, rt, "web", "web-secret", false)
-	l.code, l.reqID = fresh.code, fresh.reqID
-	d := f.Post(rt, "/device_authorization", url.Values{"scope": {"openid"}}, []string{"web", "web-secret"}, "")
+	d := f.Post(rt, "/device_authorization", url.Values{"scope": {drv.Pick(r, []string{"openid", "openid offline_access", ""})}}, []string{"web", "web-secret"}, "")
 	l.device, l.userCode = d.Str("device_code"), d.Str("user_code")
-	st.Approve(l.userCode, "alice")
+	switch r.IntN(5) {
+	case 0: // pending
+	case 1:
+		st.Deny(l.userCode)
+	default:
+		st.Approve(l.userCode, "alice")
+		if dv := st.Devices[l.device]; dv != nil && r.Chance(1, 3) {
+			dv.State.AuthTime = time.Time{}
+			dv.State.AMR = nil
+		}
+	}
 	return l
 }
 
@@ -140,17 +234,28 @@ type base struct {
 
 func (g *gen) bases(l live) []base {
 	web := []string{"web", "web-secret"}
-	q := authQuery("web")
+	q := g.flowOpts("").query()
 	var aq []pair
-	for _, k := range []string{"client_id", "redirect_uri", "response_type", "scope", "state", "nonce", "code_challenge", "code_challenge_method"} {
-		aq = append(aq, pair{k: k, v: q.Get(k)})
+	for _, k := range []string{"client_id", "redirect_uri", "response_type", "scope", "state", "nonce", "code_challenge", "code_challenge_method", "max_age"} {
+		if q.Has(k) {
+			aq = append(aq, pair{k: k, v: q.Get(k)})
+		}
 	}
+	// the code grant redeems the live code of l's own flow: right verifier, none, or an unsolicited / wrong one
+	sendV := ""
+	switch {
+	case l.opts.challenge != "" && !g.r.Chance(1, 5):
+		sendV = verifier
+	case g.r.Chance(1, 2):
+		sendV = drv.Pick(g.r, []string{verifier, "wrong-verifier-wrong-verifier-wrong-verifier-000"})
+	}
+	codeForm, codeBasic := l.opts.redeemForm(l.code, sendV)
 	return []base{
 		{"authorize", "/authorize", "GET", aq, nil, "", 1},
 		{"authorize_hint", "/authorize", "GET", append(append([]pair{}, aq...), pair{k: "id_token_hint", v: l.idToken}, pair{k: "prompt", v: "login"}, pair{k: "max_age", v: "10"}, pair{k: "ui_locales", v: "de en"}), nil, "", 1},
 		{"authorize_reqobj", "/authorize", "GET", append(append([]pair{}, aq...), pair{k: "request", v: g.assertion()}), nil, "", 1},
 		{"callback", "/authorize/callback", "GET", []pair{{k: "id", v: l.reqID}}, nil, "", 2},
-		{"token_code", "/oauth/token", "POST", []pair{{k: "grant_type", v: gtCode}, {k: "code", v: l.code}, {k: "redirect_uri", v: q.Get("redirect_uri")}, {k: "code_verifier", v: verifier}}, web, "", 3},
+		{"token_code", "/oauth/token", "POST", codeForm, codeBasic, "", 3},
 		{"token_refresh", "/oauth/token", "POST", []pair{{k: "grant_type", v: gtRefresh}, {k: "refresh_token", v: l.rt}, {k: "scope", v: "openid"}}, web, "", 4},
 		{"token_cc", "/oauth/token", "POST", []pair{{k: "grant_type", v: gtCC}, {k: "scope", v: "openid"}}, web, "", 5},
 		{"token_jwt", "/oauth/token", "POST", []pair{{k: "grant_type", v: gtBearer}, {k: "assertion", v: g.assertion()}, {k: "scope", v: "openid"}}, nil, "", 6},
@@ -211,11 +316,20 @@ func routeCases(w *emit.Writer, g *gen, n int) {
 	for i := 0; i < n; i++ {
 		rt := opfix.Router(i % 2)
 		if i%16 < 2 {
-			lives[rt] = newLive(f, st, rt)
+			lives[rt] = g.newLive(f, st, rt)
 		}
 		l := lives[rt]
+		{ // a fresh, not yet redeemed code of a flow with its own optional parts
+			fo := g.flowOpts("")
+			fo.notLoggedIn = r.Chance(1, 10)
+			fresh := flow(f, st, rt, fo, false)
+			l.code, l.reqID, l.opts = fresh.code, fresh.reqID, fo
+		}
 		bs := g.bases(l)
 		b := drv.Pick(r, bs)
+		if r.Chance(1, 6) { // the last step of the code flow, entered with the fresh flow's stored state
+			b = bs[4]
+		}
 		tags := []string{}
 		ftag := ""
 		form := append([]pair{}, b.form...)
@@ -241,7 +355,7 @@ func routeCases(w *emit.Writer, g *gen, n int) {
 				nm = 0 // the valid request itself
 			}
 			for k := 0; k < nm; k++ {
-				switch r.IntN(22) {
+				switch r.IntN(26) {
 				case 0: // drop a parameter
 					if len(form) > 0 {
 						at := r.IntN(len(form))
@@ -351,8 +465,16 @@ func routeCases(w *emit.Writer, g *gen, n int) {
 					if bearer == t && ft != "" {
 						ftag = ft
 					}
-				default: // huge header
+				case 21: // huge header
 					headers["X-Forwarded-For"] = strings.Repeat("1.2.3.4, ", 2000)
+				default: // a well-formed parameter that is only legal in another flow / grant
+					x := drv.Pick(r, []pair{{k: "code_verifier", v: verifier}, {k: "code", v: l.code}, {k: "refresh_token", v: l.rt}, {k: "device_code", v: l.device},
+						{k: "assertion", v: g.assertion()}, {k: "subject_token", v: l.atJWT}, {k: "subject_token_type", v: ttAccess}, {k: "actor_token", v: l.idToken},
+						{k: "actor_token_type", v: ttID}, {k: "requested_token_type", v: drv.Pick(r, []string{ttAccess, ttRefresh, ttID})}, {k: "redirect_uri", v: "https://web.example.com/cb"},
+						{k: "scope", v: "openid offline_access"}, {k: "audience", v: "api"}, {k: "resource", v: "https://api.example.com"}, {k: "id_token_hint", v: l.idToken},
+						{k: "token", v: l.at}, {k: "token_type_hint", v: "refresh_token"}, {k: "code_challenge", v: opfix.S256(verifier)}, {k: "code_challenge_method", v: "S256"},
+						{k: "response_type", v: "code"}, {k: "nonce", v: "n2"}, {k: "state", v: "st"}, {k: "user_code", v: l.userCode}, {k: "access_token", v: l.at}})
+					form = append(form, x)
 				}
 			}
 		}
